@@ -55,7 +55,9 @@ Min(a, b) == IF a < b THEN a ELSE b
      rclose remote closes the connection after its last message
      plan   [Senders -> Seq(Nat)]  message ids each sender queues, in order
      invs   sequence over {"tx","block"} queued through QueueInventory
-     disc   a Disconnect() call happens at some point                      *)
+     disc   a Disconnect() call happens at some point
+     net    "main" | "test3" | "nil" (no ChainParams: testnet3) | "regtest" | "sim"
+     loop   the remote's address is 127.0.0.1 (else a routable address)     *)
 
 RMsg(k, pv, self) == [k |-> k, pv |-> pv, self |-> self]
 
@@ -363,9 +365,13 @@ IhLoopGo ==
   /\ pc["ih"] = "loop" /\ disc = 0
   /\ Goto("ih", "read")
   /\ UNCHANGED <<scn, connV, flagV, hsV, chanV, locV, histV>>
-IhAfterRead(m) == CASE Unknown(m)   -> "loop"   \* ErrUnknownMessage: ignored
-                    [] DecodeErr(m) -> "bad"
-                    [] OTHER        -> "sc1"
+\* isAllowedReadError: only on the regression test network and only from
+\* localhost are undecodable / wrong-network messages tolerated (and skipped)
+Tolerant == scn.net = "regtest" /\ scn.loop
+IhAfterRead(m) == CASE DecodeErr(m) /\ Tolerant -> "loop"
+                    [] Unknown(m)              -> "loop"   \* ErrUnknownMessage: ignored
+                    [] DecodeErr(m)            -> "bad"
+                    [] OTHER                   -> "sc1"
 IhRead ==                 \* observable rd
   /\ pc["ih"] = "read" /\ CanRead
   /\ rdn' = rdn + 1
@@ -756,6 +762,12 @@ Refused  == \/ FirstMsg.k # "ver"
             \/ FirstMsg.self
             \/ FirstMsg.pv < MinAcceptablePV
 RefusedNeverConnects == Refused => (~started /\ ~verAck /\ negRes # "ok")
+
+\* wrong-network / undecodable traffic after the handshake is refused: it is the
+\* last thing inHandler ever reads (except on regtest from localhost)
+BadTrafficEndsReading ==
+  started /\ ~Tolerant =>
+     \A j \in (cur["ng"] + 1)..(rdn - 1) : scn.script[j].k \notin {"malformed", "wrongmagic"}
 
 \* queue order is wire order; nothing is written twice
 IsSubSeq(a, b) ==          \* a is a subsequence of b (both duplicate free)
